@@ -897,7 +897,7 @@ func c13Run(t *testing.T, ops []c13Op, emit bool) *c13Result {
 					// the write invalidates the principals whose grants it changed, at its own sequence; the first
 					// invalidation since the last rebuild sticks
 					for k, post := range e.invalSeqs() {
-						if k < len(invBefore) && (invBefore[k] != 0 || post != 0) {
+						if k < len(invBefore) && (invBefore[k] != 0 || post != 0) && (invBefore[k] != 0 || (i+k)%3 == 0 || vThorough()) {
 							res.cases = append(res.cases, c13CoqCase{kind: "invalidate", nt: invBefore[k] != 0,
 								coq:  fmt.Sprintf("(CInval %d %d %d)", invBefore[k], sdAfter.Sequence, post),
 								desc: map[string]any{"inval_before": invBefore[k], "write_seq": sdAfter.Sequence, "inval_after": post}})
@@ -1023,8 +1023,15 @@ func c13Run(t *testing.T, ops []c13Op, emit bool) *c13Result {
 					continue
 				}
 				pp := c13SortPeriods(per)
-				if len(pp) == 0 && (i+ci)%4 != 0 {
-					continue // channels never held: a quarter of them is enough
+				inRevoked := false
+				for _, p := range revP {
+					if p.A == uint64(ci+1) {
+						inRevoked = true
+					}
+				}
+				// channels with one current period or none are sampled; lost / regained / revoked ones always go
+				if !inRevoked && len(pp) <= 1 && (i+ci)%5 != 0 && !vThorough() {
+					continue
 				}
 				res.cases = append(res.cases, c13CoqCase{kind: "granted_periods", nt: len(pp) > 1,
 					coq:  fmt.Sprintf("(CPeriods %s %s %d %s)", c13UserCoq(snap.User), c13RolesCoq(snap.Roles), ci+1, c13PairsCoq(pp)),
@@ -1038,6 +1045,9 @@ func c13Run(t *testing.T, ops []c13Op, emit bool) *c13Result {
 					}
 					if !mentioned || len(pp) == 0 {
 						continue
+					}
+					if !inRevoked && (i+ci+int(d.ID))%4 != 0 && !vThorough() {
+						continue // the test only matters for revoked channels; a sample of the others
 					}
 					sd, err := e.col.GetDocSyncData(e.ctx, c13DocName(int(d.ID)))
 					if err != nil {
@@ -1185,6 +1195,32 @@ func c13Run(t *testing.T, ops []c13Op, emit bool) *c13Result {
 					if at, ok := skippedRemoval[d]; ok {
 						why = "/backfill-skips-removal"
 						cause = fmt.Sprintf(" [the request at op %d back-filled a re-granted channel and dropped the removal / tombstone entry of d%d, which the client held]", at, d)
+					}
+					// a deleted role that is still among the user's roles is ignored by CollectionChannelGrantedPeriods: no
+					// period for its channels, so documents changed after the client's position are not revoked
+					for _, sd := range snap.Docs {
+						if sd.ID != d {
+							continue
+						}
+						for _, ro := range snap.Roles {
+							heldRole := false
+							for _, ur := range snap.User.Roles {
+								if ur.A == ro.ID {
+									heldRole = true
+								}
+							}
+							if !ro.Deleted || !heldRole {
+								continue
+							}
+							for _, h := range ro.Hist {
+								for _, de := range sd.Hist {
+									if de.Name == h.Name && why == "" {
+										why = "/deleted-role-periods-missing"
+										cause = fmt.Sprintf(" [channel %s was held through role r%d, which was deleted and is still listed among the user's roles: CollectionChannelGrantedPeriods ignores it, wasDocInChannelPriorToRevocation answers false for d%d (changed at %d, after the client's position)]", c13ChanNames[h.Name-1], ro.ID, d, sd.Seq)
+									}
+								}
+							}
+						}
 					}
 					for _, sd := range snap.Docs {
 						if sd.ID == d {
@@ -1806,6 +1842,7 @@ func c13Shrink(t *testing.T, ops []c13Op, mon, sig string) []c13Op {
 // ---------- entry point ----------
 func TestVerifC13(t *testing.T) {
 	rec := vNewRecorder(t, "C13", "C13.C13_Corr")
+	rec.shardSize = 1000 // the cases are small terms: loading the model dominates a shard's cost
 	defer rec.Finish()
 	rnd := vNewRand(vSeed())
 	if os.Getenv("C13_DEBUG") != "" {
@@ -1861,7 +1898,20 @@ func TestVerifC13(t *testing.T) {
 	}
 	sort.Strings(names)
 	for _, n := range names {
+		if os.Getenv("C13_CORPUS_DEBUG") != "" {
+			res := c13Run(t, corpus[n], false)
+			for _, f := range res.fails {
+				fmt.Printf("C13CORPUS %s: %s %s: %s\n", n, f.monitor, f.sig, f.detail)
+			}
+			for _, p := range res.pulls {
+				fmt.Printf("C13CORPUS %s:    pull@%d limit=%d -> since %s rows=%+v client=%v visible=%v\n", n, p.At, p.Limit, p.Since, p.Rows, p.Client, p.Visible)
+			}
+			continue
+		}
 		history("corpus", "corpus_"+n, corpus[n], true)
+	}
+	if os.Getenv("C13_CORPUS_DEBUG") != "" {
+		return
 	}
 
 	// (ii) bounded-exhaustive
